@@ -550,6 +550,12 @@ def rule_pericentre_time(ctx):
             nm_, rhs_ = cand
             txt_ = render(rhs_).replace(' ', '')
             r0 = strip(rhs_, casts=True)
+            if r0.get('kind') == 'ConditionalOperator':
+                # t0 = (p.sim != NULL) ? p.sim->t : 0.0  - the time of the simulation where there is one
+                for br_ in r0['inner'][1:]:
+                    b0 = strip(br_, casts=True)
+                    if b0.get('kind') == 'MemberExpr' and b0.get('name') == 't':
+                        r0 = b0
             if r0.get('kind') == 'MemberExpr' and r0.get('name') == 't':
                 envi[nm_] = t
             elif re.match(r'^\(?G\*\(+\w+\.m\+\w+\.m\)+$', txt_):
